@@ -1367,9 +1367,35 @@ func (g *Gen) pageThrough(name string, n int) {
 }
 
 func scnRegistry(g *Gen, budget int, arg string) {
+	first := true
 	for g.nOps < budget {
 		g.initStandard(2, 1)
 		owner, am, tc := g.role("owner"), g.role("am"), g.role("tc")
+		if first {
+			first = false
+			// deterministic preamble: every registry action a SECOND time, with the same and with another value, and the
+			// limit with every shape of amount (absent, zero, negative, huge) on top of an existing entry
+			for _, dn := range []string{mintDenom, "other", "UUSDC"} {
+				for _, a := range []string{"5", "5", "-", "0", "-1", "7", "-", "115792089237316195423570985008687907853269984665640564039457584007913129639935"} {
+					g.tx("SetMaxBurnAmountPerMessage", newKV().set("from", hs(tc)).set("localToken", hs(dn)).set("amount", a))
+				}
+				g.emit(Op{Kind: "query", Sub: "PerMessageBurnLimit", KV: newKV().set("denom", hs(dn))})
+			}
+			for rep := 0; rep < 2; rep++ {
+				g.tx("AddRemoteTokenMessenger", newKV().set("from", hs(owner)).set("domain", "9").set("address", hx(messengerAddr(9))))
+				g.tx("LinkTokenPair", newKV().set("from", hs(tc)).set("domain", "9").set("token", hx(token(1))).set("localToken", hs(mintDenom)))
+				g.tx("EnableAttester", newKV().set("from", hs(am)).set("attester", hs(g.pubHex[3])))
+			}
+			for rep := 0; rep < 2; rep++ {
+				g.tx("RemoveRemoteTokenMessenger", newKV().set("from", hs(owner)).set("domain", "9"))
+				g.tx("UnlinkTokenPair", newKV().set("from", hs(tc)).set("domain", "9").set("token", hx(token(1))).set("localToken", hs(mintDenom)))
+				g.tx("DisableAttester", newKV().set("from", hs(am)).set("attester", hs(g.pubHex[3])))
+			}
+			for _, sz := range []string{"0", "0", "132", "132", "8000"} {
+				g.tx("UpdateMaxMessageBodySize", newKV().set("from", hs(owner)).set("size", sz))
+				g.emit(Op{Kind: "query", Sub: "MaxMessageBodySize", KV: newKV()})
+			}
+		}
 		for i := 0; i < 40 && g.nOps < budget; i++ {
 			switch g.pick(9) {
 			case 0:
